@@ -399,7 +399,7 @@ def r15_5(run, model):
     n = 0
     for name in ("check_package", "build_package"):
         f = model.fn(name, SEP)
-        for loop in S.find(f.body, "For"):
+        for loop in S.find(model.inlined_body(f), "For"):
             ins = [c for c in S.calls(loop["body"], "insert") if c["k"] == "MethodCall"]
             pinned = [c for c in ins if len(c["args"]) == 2 and "interface_hash" in S.norm_ws(run.facts.text(f.file, c["args"][1]["sp"]))]
             if not pinned:
